@@ -67,7 +67,9 @@ _J = z3.Int('vj')
 
 
 def vec_of(arr):
-    """1-D real SArr -> normalised Vec term"""
+    """1-D numeric SArr (float64 or integer typed) -> normalised Vec term of its VALUES"""
+    if arr.kind == 'int':
+        return vec_fn(lambda j: z3.ToReal(arr.at(j)))
     return vec_fn(lambda j: arr.at(j))
 
 
@@ -112,7 +114,7 @@ class TargetFn:
 
     def __call__(self, x):
         vc = cur()
-        if not (isinstance(x, SArr) and x.ndim == 1 and x.kind == 'real'):
+        if not (isinstance(x, SArr) and x.ndim == 1 and x.kind in ('real', 'int')):
             raise OutOfSubset('target called with %r' % (x,))
         vc.oblige('call-pre[target is evaluated on a parameter vector of the dimension of params0]', x.shape[0] == DIM)
         v = vec_of(x.snapshot())
@@ -124,7 +126,7 @@ class TargetFn:
 class GradFn:
     def __call__(self, x):
         vc = cur()
-        if not (isinstance(x, SArr) and x.ndim == 1 and x.kind == 'real'):
+        if not (isinstance(x, SArr) and x.ndim == 1 and x.kind in ('real', 'int')):
             raise OutOfSubset('grad_target called with %r' % (x,))
         vc.oblige('call-pre[grad_target is evaluated on a parameter vector of the dimension of params0]', x.shape[0] == DIM)
         v = vec_of(x.snapshot())
@@ -228,7 +230,7 @@ class _GlobalRandom:
 def inner(a, b):
     """np.inner of two d-vectors: SOME finite real number (A-REAL).  Nothing else is assumed about the value (the clauses
     proved here depend only on the outcome of the comparisons the code makes with it), which keeps the path conditions linear."""
-    if isinstance(a, SArr) and isinstance(b, SArr) and a.ndim == 1 and b.ndim == 1 and a.kind == 'real' and b.kind == 'real':
+    if isinstance(a, SArr) and isinstance(b, SArr) and a.ndim == 1 and b.ndim == 1 and a.kind in ('real', 'int') and b.kind in ('real', 'int'):
         vc = cur()
         vc.oblige('call-pre[np.inner: equal lengths]', a.shape[0] == b.shape[0])
         r = SReal(vc.fresh('inner', R))
@@ -280,10 +282,17 @@ def chain_def(i, sigma):
     return z3.And(XV(i) == z3.If(acc_cond(i, sigma), pv, XV(i - 1)), _EXP(d.v) > 0)
 
 
+KIND = {'float64': 'real', 'integer': 'int'}
+
+
 class Metropolis(Contract):
     target = 'elfi/methods/mcmc.py::metropolis'
     prop = 'C09'
     fin = 3
+
+    def __init__(self, p0_dtype='float64', sigma_dtype='float64'):
+        self.p0_dtype, self.sigma_dtype = p0_dtype, sigma_dtype
+        self.label = 'params0:%s,sigma:%s' % (p0_dtype, sigma_dtype)
 
     def env(self, vc):
         self._rs = []
@@ -293,10 +302,12 @@ class Metropolis(Contract):
     def setup(self, vc):
         n, w = z3.Ints('n_samples warmup')
         vc.fin_bounds.extend([n, w, DIM])
-        p0 = SArr.fresh('params0', (DIM,), 'real')
-        sg = SArr.fresh('sigma_proposals', (DIM,), 'real')
+        # the numpy dtype of the two array arguments is not fixed by the signature: float64 | integer-typed (a store of a float
+        # into an integer-typed buffer truncates toward zero, pyvc.sarray); float32 precision is outside A-REAL (bounded tier)
+        p0 = SArr.fresh('params0', (DIM,), KIND[self.p0_dtype])
+        sg = SArr.fresh('sigma_proposals', (DIM,), KIND[self.sigma_dtype])
         s = NS(n=n, w=w, p0=p0.snapshot(), sg=sg.snapshot(), t0=TGT(vec_of(p0.snapshot())))
-        s.sigma = lambda j: s.sg.at(j)
+        s.sigma = (lambda j: z3.ToReal(s.sg.at(j))) if s.sg.kind == 'int' else (lambda j: s.sg.at(j))
         return s, (SInt(n), p0, TargetFn(), sg), dict(warmup=SInt(w), seed=SInt(SEED))
 
     def requires(self, s):
@@ -341,7 +352,7 @@ class Metropolis(Contract):
 
     def witness(self, vc, model, ob):
         ev = lambda t: str(model.eval(t, model_completion=True))
-        return dict(function='metropolis', d=ev(DIM), n_samples=ev(z3.Int('n_samples')), warmup=ev(z3.Int('warmup')), obligation=ob.kind)
+        return dict(function='metropolis', params0_dtype=self.p0_dtype, sigma_dtype=self.sigma_dtype, d=ev(DIM), n_samples=ev(z3.Int('n_samples')), warmup=ev(z3.Int('warmup')), obligation=ob.kind)
 
 
 # ================================================================= _build_tree_nuts
@@ -368,7 +379,7 @@ def build_tree_spec(variant=None):
     """the contract of _build_tree_nuts as seen from a call site (its own Contract `BuildTree` proves the post)"""
     def spec(vc, params, momentum, log_slicevar, step, depth, log_joint0, target, grad_target, random_state):
         for nm, a in (('params', params), ('momentum', momentum)):
-            if not (isinstance(a, SArr) and a.ndim == 1 and a.kind == 'real'):
+            if not (isinstance(a, SArr) and a.ndim == 1 and a.kind in ('real', 'int')):
                 raise OutOfSubset('_build_tree_nuts: %s = %r' % (nm, a))
             vc.oblige('call-pre[_build_tree_nuts: %s has dimension d]' % nm, a.shape[0] == DIM)
         ls = XReal.of(log_slicevar)
@@ -462,10 +473,11 @@ class Nuts(Contract):
     fin = 2
     max_paths = 6000
 
-    def __init__(self, mode, adapt):
+    def __init__(self, mode, adapt, p0_dtype='float64'):
         self.mode = mode            # 'stepsize-given' | 'stepsize-search'
         self.adapt = adapt          # 'n_adapt-default' (None -> n_iter // 2) | 'n_adapt-given'
-        self.label = mode + ',' + adapt
+        self.p0_dtype = p0_dtype    # numpy dtype of params0: 'float64' | 'integer'
+        self.label = mode + ',' + adapt + ('' if p0_dtype == 'float64' else ',params0:' + p0_dtype)
 
     def env(self, vc):
         self._rs = []
@@ -476,7 +488,7 @@ class Nuts(Contract):
     def setup(self, vc):
         n_iter, n_adapt, max_depth, retry = z3.Ints('n_iter n_adapt max_depth max_retry_inits')
         vc.fin_bounds.extend([DIM, n_iter, n_adapt, max_depth])
-        p0 = fresh_vec('params0')
+        p0 = SArr.fresh('params0', (DIM,), KIND[self.p0_dtype])
         s = NS(n_iter=n_iter, n_adapt_arg=n_adapt, max_depth=max_depth, retry=retry, p0=p0.snapshot(), t0=TGT(vec_of(p0.snapshot())))
         na = None if self.adapt == 'n_adapt-default' else SInt(n_adapt)
         s.n_adapt_given = na is not None
@@ -577,7 +589,9 @@ class Nuts(Contract):
                     max_depth=ev(z3.Int('max_depth')), obligation=ob.kind)
 
 
-CONTRACTS = [Metropolis(), BuildTree()] + [Nuts(m, a) for m in ('stepsize-given', 'stepsize-search') for a in ('n_adapt-default', 'n_adapt-given')]
+CONTRACTS = [Metropolis(a, b) for a in ('float64', 'integer') for b in ('float64', 'integer')] + [BuildTree()] + \
+    [Nuts(m, a) for m in ('stepsize-given', 'stepsize-search') for a in ('n_adapt-default', 'n_adapt-given')] + \
+    [Nuts('stepsize-given', 'n_adapt-given', 'integer')]
 
 TRUSTED_BASE = ['pyvc engine: proxies, loop cutting, modular (recursive) calls through Stub, spec tables',
                 'pyvc/extreal.py: IEEE tag semantics of + - * < <= == exp isinf isnan isfinite min on {finite, +inf, -inf, nan} (tables compared with numpy each run)',
